@@ -63,6 +63,17 @@ func RunProperty(o Options) (int, error) {
 		for _, m := range uniq(append(append([]string(nil), r.Stats.Inconclusive...), r.Inconcl...)) {
 			fmt.Printf("INCONCLUSIVE property=%s harness=%s %s\n", o.Prop, hh.ID, short(m, 300))
 		}
+		if os.Getenv("MOQSYM_SHOWVIOL") != "" {
+			seenL := map[string]int{}
+			for _, ob := range r.Stats.Obligations {
+				if ob.Result != "discharged" {
+					seenL[ob.Result+": "+ob.Label]++
+				}
+			}
+			for l, n := range seenL {
+				fmt.Printf("  [%d×] %s\n", n, l)
+			}
+		}
 		for i, u := range r.Stats.Unwinding {
 			if i < 3 {
 				fmt.Printf("UNWINDING harness=%s %s model=%v stack-tail=%v\n", hh.ID, u.Msg, u.Model, tail(u.Stack, 4))
@@ -82,8 +93,12 @@ func RunProperty(o Options) (int, error) {
 	for _, k := range uniq(pr.Known) {
 		fmt.Printf("KNOWN-FINDING: property=%s %s\n", o.Prop, k)
 	}
-	for _, v := range pr.Unconf {
-		fmt.Printf("INCONCLUSIVE property=%s harness=%s unconfirmed model (did not reproduce on the real build): %s %v\n", o.Prop, v.Harness, v.Label, v.Model)
+	for i, v := range pr.Unconf {
+		if i >= 8 {
+			fmt.Printf("INCONCLUSIVE property=%s ... and %d more unconfirmed models\n", o.Prop, len(pr.Unconf)-8)
+			break
+		}
+		fmt.Printf("INCONCLUSIVE property=%s harness=%s unconfirmed model (did not reproduce on the real build): %s [%s] %s\n", o.Prop, v.Harness, v.Label, v.Instance, short(fmt.Sprint(v.Model), 300))
 	}
 	seen := map[string]bool{}
 	var lines []string
@@ -110,6 +125,9 @@ func init() {
 	Properties["C13"] = func(env *Env) []*Harness { return []*Harness{HExported()} }
 	Properties["C20"] = func(env *Env) []*Harness { return []*Harness{HPairName(), HMock(), HRun()} }
 	Properties["C17"] = func(env *Env) []*Harness { return []*Harness{HRun(), HMain(), HMock()} }
+	for _, p := range []string{"C03", "C04", "C05", "C06", "C07", "C08"} {
+		Properties[p] = func(env *Env) []*Harness { return []*Harness{HGenSeq()} }
+	}
 	Properties["C15"] = func(env *Env) []*Harness { return []*Harness{HRun()} }
 	Properties["C18"] = func(env *Env) []*Harness { return []*Harness{HRun()} }
 }
